@@ -98,11 +98,68 @@ def _reuse_case(c):
     return {"failures": fails, "canon": core.config_key(c), "outcome": (len(c["requests"]), len(fails)), "nontrivial": True, "evals": len(c["requests"])}
 
 
+ONE_D = {"trapezoidal": "TrapezoidalGrid1D", "simpson": "SimpsonGrid1D", "clenshaw_curtis": "ClenshawCurtisGrid1D", "leja": "LejaGrid1D",
+         "gauss_legendre": "GaussLegendreGrid1D"}
+
+
+def _mixed_case(c):
+    """a grid whose dimensions differ - different 1D families (MixedGrid) and / or different per-dimension boundary flags (set through the
+    public set_boundaries) - serves a sequence of (level, sub-box) requests on ONE object.  Every answer must be the tensor product of
+    what a fresh homogeneous one-dimensional grid of the family and flag of each dimension returns for that level and interval."""
+    from sparseSpACE import Grid as G
+    fams, flags, a, b = c["families"], c["flags"], c["a"], c["b"]
+    d = len(fams)
+    key = {"family": "mixed", "oracle_kind": "per_dimension_product"}
+    fails = []
+
+    def one_d(k, flag):
+        if fams[k] == "gauss_legendre":
+            return G.GaussLegendreGrid(np.array([a[k]]), np.array([b[k]]))
+        return _grid(fams[k], [a[k]], [b[k]], flag)
+    if c["build"] == "mixed":
+        grids = []
+        for k in range(d):
+            cls = getattr(G, ONE_D[fams[k]])
+            grids.append(cls(a=a[k], b=b[k], boundary=flags[k]) if fams[k] != "gauss_legendre" else cls(a=a[k], b=b[k]))
+        g = G.MixedGrid(np.array(a, dtype=float), np.array(b, dtype=float), grids)
+    else:       # homogeneous family built with boundary points, flags switched per dimension afterwards
+        g = _grid(fams[0], a, b, True)
+        g.set_boundaries(list(flags))
+    for step, (lv, s, e) in enumerate(c["requests"]):
+        g.setCurrentArea(np.array(s, dtype=float), np.array(e, dtype=float), list(lv))
+        P, W = g.get_points_and_weights()
+        got = {}
+        for pp, ww in zip(P, W):
+            got[tuple(float(x) for x in pp)] = got.get(tuple(float(x) for x in pp), 0.0) + float(ww)
+        ann = int(np.prod(g.levelToNumPoints(list(lv))))
+        per = []
+        for k in range(d):
+            r = one_d(k, flags[k])
+            r.setCurrentArea(np.array([s[k]], dtype=float), np.array([e[k]], dtype=float), [lv[k]])
+            p1, w1 = r.get_points_and_weights()
+            per.append([(float(pp[0]), float(ww)) for pp, ww in zip(p1, w1)])
+        want = {}
+        for combo in itertools.product(*per):
+            want[tuple(x for x, _ in combo)] = float(np.prod([w for _, w in combo]))
+        if len(P) != ann:
+            fails.append(fail("announced_point_number", "request %d (level %r box %r-%r): %d points returned, %d announced" % (step, lv, s, e, len(P), ann), key))
+            break
+        if set(got) != set(want):
+            fails.append(fail("mixed_points", "request %d (level %r box %r-%r) families %r flags %r: points %r, per-dimension product %r" % (step, lv, s, e, fams, flags, sorted(got)[:5], sorted(want)[:5]), key))
+            break
+        if max(abs(got[q] - want[q]) for q in want) > 1e-13 * max(1.0, max(abs(v) for v in want.values())):
+            fails.append(fail("mixed_weights", "request %d (level %r box %r-%r) families %r flags %r" % (step, lv, s, e, fams, flags), key))
+            break
+    return {"failures": fails, "canon": core.config_key(c), "outcome": (len(c["requests"]), len(fails)), "nontrivial": True, "evals": len(c["requests"])}
+
+
 def run_case(case):
     from sparseSpACE.Function import CustomFunction
     c = case["config"]
     if c.get("kind") == "reuse":
         return _reuse_case(c)
+    if c.get("kind") == "mixed":
+        return _mixed_case(c)
     name, d, lv = c["family"], c["d"], c["level"]
     a, b, s, e = c["a"], c["b"], c["start"], c["end"]
     key = {"family": name}
@@ -234,6 +291,23 @@ def cases(tier):
             for seq in itertools.product(menu2, repeat=2):
                 out.append({"config": {"kind": "reuse", "family": name, "d": 2, "a": [0.0, 0.0], "b": [1.0, 1.0], "requests": [list(x) for x in seq],
                                        "boundary_flags": [True, False]}})
+    # grids whose dimensions differ: MixedGrid of different 1D families, and per-dimension boundary flags switched through set_boundaries;
+    # every ordered pair of requests on one object, on an anisotropic shifted box
+    am, bm = [-1.0, 2.0], [3.0, 4.0]
+    menu2m = [(lv, [am[k] + (bm[k] - am[k]) * s[k] for k in range(2)], [am[k] + (bm[k] - am[k]) * e[k] for k in range(2)]) for lv, s, e in menu2] \
+        + [([2, 3], [1.0, 2.5], [2.0, 3.0])]
+    mixes = [(("trapezoidal", "gauss_legendre"), (True, False)), (("gauss_legendre", "trapezoidal"), (False, True)),
+             (("trapezoidal", "gauss_legendre"), (False, False)), (("trapezoidal", "clenshaw_curtis"), (True, True)),
+             (("simpson", "leja"), (True, True)), (("clenshaw_curtis", "simpson"), (True, True)), (("leja", "trapezoidal"), (True, False)),
+             (("trapezoidal", "trapezoidal"), (True, False)), (("trapezoidal", "trapezoidal"), (False, True))]
+    for fams, flags in mixes:
+        for seq in itertools.product(menu2m, repeat=2):
+            out.append({"config": {"kind": "mixed", "build": "mixed", "family": "mixed", "d": 2, "families": list(fams), "flags": list(flags),
+                                   "a": am, "b": bm, "requests": [list(x) for x in seq]}})
+    for flags in ((True, False), (False, True), (False, False)):
+        for seq in itertools.product(menu2m, repeat=2):
+            out.append({"config": {"kind": "mixed", "build": "flags", "family": "mixed", "d": 2, "families": ["trapezoidal", "trapezoidal"],
+                                   "flags": list(flags), "a": am, "b": bm, "requests": [list(x) for x in seq]}})
     return out
 
 
